@@ -51,7 +51,13 @@ def main():
             print("suite:", res["suite"])
         for p in props:
             t0 = time.time()
-            r = sh(f"cd {VERIF} && ./check {p} --tier {tier}")
+            try:
+                r = sh(f"cd {VERIF} && timeout -k 5 {1200 if tier == 'quick' else 4 * 3600} ./check {p} --tier {tier}")
+            except Exception as ex:  # noqa
+                r = subprocess.CompletedProcess([], 2, stdout=f"MACHINERY-ERROR: {ex}")
+            if r.returncode == 124:
+                r.stdout += "\nMACHINERY-ERROR: check timed out"
+                r.returncode = 2
             lines = r.stdout.splitlines()
             viol = [l for l in lines if l.startswith("VIOLATION")]
             mach = [l for l in lines if l.startswith("MACHINERY-ERROR")]
